@@ -21,12 +21,22 @@ func VerifHarness_Send_Deliver() {
 	tx := verifTx(verifU64("nonce"), verifU32("gasPrice"), gasCoin, TypeSend, data)
 	tx.ChainID = types.ChainID(verifByte("chainID"))
 	raw := verifSignBy(tx, 1)
+	var priceInBase *big.Int
+	if pc := types.CoinID(verifConfig("priceCoin")); !pc.IsBaseCoin() {
+		inTable := new(big.Int).Mul(new(big.Int).SetUint64(uint64(tx.GasPrice)), u.st.Commission.GetCommissions().Send)
+		priceInBase, _ = u.st.Swapper().GetSwapper(pc, 0).CalculateBuyForSellWithOrders(inTable)
+	}
 	resp, before, after := verifDeliverChecked(u, tx, raw, u.A, nonce0)
 	if resp.Code == 0 {
 		// C27 (base gas coin): the fee reaching the reward pool is gasPrice * price.Send
 		if gasCoin.IsBaseCoin() {
 			fee := new(big.Int).Sub(after.get("rewardpool"), before.get("rewardpool"))
 			want := new(big.Int).Mul(big.NewInt(int64(tx.GasPrice)), u.st.Commission.GetCommissions().Send)
+			if pc := types.CoinID(verifConfig("priceCoin")); !pc.IsBaseCoin() {
+				// price table in a custom coin: gasPrice x price converted through
+				// the (price coin, base) pool as it stood before the transaction
+				want = priceInBase
+			}
 			verifAssert("C27:fee=gasprice*typeprice", fee.Cmp(want) == 0)
 		}
 		if to != u.A {
